@@ -8,6 +8,8 @@ import BqVerif.Proofs.Walsh
 import BqVerif.Proofs.Demultiplex
 import BqVerif.Proofs.BlockZXZ
 import BqVerif.Proofs.Mux
+import BqVerif.Proofs.Pas
+import BqVerif.Generated.PasOrder
 /-! # C10 — every circuit-rewriting pass preserves its target within stated tolerance
 
 Four classes (DESIGN.md §4 C10, design_notes/C10.md):
@@ -425,5 +427,63 @@ open BqVerif.Mux in
 is outside the location. -/
 theorem C10_mgd_move_raises (loc : List Nat) (t : Nat) : moveLast loc t = none ↔ loc.length ≤ t :=
   moveLast_none
+
+/-! ## PermutationAwareSynthesisPass: the reported mappings belong to the returned circuit
+
+`Model/Pas.lean` transcribes the bookkeeping of `PermutationAwareSynthesisPass.synthesize`: the
+labels `permsbyperms`, the permuted targets (as the pair of permutations each is built from), and
+the selection loop.  (B)-kind tie: `translate/pas_order.py` RUNS the live `synthesize` for the four
+option pairs and widths 2, 3 with a stub inner synthesis, recovers for every target handed to it
+the unique pair `(pi, po)` with `target = Po^T U Pi`, records the labels, the returned circuit and
+the reported mappings under scripted scores, and writes `Generated/PasOrder.lean`; the kernel decides
+below that the model evaluates to exactly those tables. -/
+
+open BqVerif.Pas in
+/-- **For every option pair, every list of permutations and every inner synthesis / scoring
+    function**: the circuit `synthesize` returns is the one the inner synthesis produced for the
+    target `Po^T U Pi` of the REPORTED pair `(initial_mapping, final_mapping) = (pi, po)`; that pair
+    is one of the labels; and no candidate scores better.  (Hence, if the inner synthesis meets
+    its threshold on every target, the output implements the pass's target under the reported
+    mappings within that threshold.) -/
+theorem C10_pas_reported {π τ γ : Type} (ip op : Bool) (ps : List π) (idp : π)
+    (mkTarget : π → π → τ) (inner : τ → γ) (score : γ → Nat) (l : π × π) (c : γ)
+    (h : BqVerif.Pas.synthesize ip op ps idp mkTarget inner score = some (l, c)) :
+    c = inner (mkTarget l.1 l.2) ∧ l ∈ labels ip op ps idp
+    ∧ ∀ l' ∈ labels ip op ps idp, score c ≤ score (inner (mkTarget l'.1 l'.2)) :=
+  synthesize_spec ip op ps idp mkTarget inner score l c h
+
+open BqVerif.Pas in
+/-- the enumeration of the targets follows the enumeration of the labels, for every branch -/
+theorem C10_pas_aligned {π : Type} (ip op : Bool) (ps : List π) (idp : π) :
+    targetPairs ip op ps idp = labels ip op ps idp := aligned ip op ps idp
+
+open BqVerif.Pas in
+/-- … and this is a property the code must have, not a tautology of the model: enumerating the
+    targets output-permutation-major against input-major labels (`for Po, Pi in product(Pos, Pis)`)
+    misaligns them as soon as there are two permutations -/
+theorem C10_pas_misaligned_witness :
+    (product (perms 2) (perms 2)).map (fun (po, pi) => (pi, po)) ≠ labels true true (perms 2) [0, 1] := by
+  decide
+
+open BqVerif.Pas BqVerif.Generated.PasOrder in
+/-- **(B) the live code enumerates and selects as the model does** (regenerated tables, widths 2
+    and 3, all four option pairs): the labels passed to the runtime are the model's labels over
+    `itertools.permutations(range(width))`, the targets handed to the inner synthesis are built
+    from exactly the model's pairs in the model's order, and under each scripted score vector the
+    returned circuit is the one at the model's selected index, reported with the label at that
+    index. -/
+theorem C10_pas_tables :
+    (∀ r ∈ enumTables,
+        r.2.2.2.1 = labels r.1 r.2.1 (perms r.2.2.1) (List.range r.2.2.1)
+        ∧ r.2.2.2.2 = targetPairs r.1 r.2.1 (perms r.2.2.1) (List.range r.2.2.1))
+    ∧ (∀ r ∈ selectTables,
+        r.2.2.2.2.1 = selectIdx r.2.2.2.1
+        ∧ (labels r.1 r.2.1 (perms r.2.2.1) (List.range r.2.2.1))[selectIdx r.2.2.2.1]?
+            = some (r.2.2.2.2.2.1, r.2.2.2.2.2.2)) := by
+  decide +kernel
+
+example : BqVerif.Pas.synthesize true true (BqVerif.Pas.perms 2) [0, 1]
+    (fun pi po => (pi, po)) (fun t => t) (fun c => if c = ([0, 1], [1, 0]) then 1 else 5)
+    = some (([0, 1], [1, 0]), ([0, 1], [1, 0])) := by decide
 
 end BqVerif.C10
